@@ -29,11 +29,19 @@ Kind(r) == IF r.tie THEN "tie" ELSE r.cls
 TraceInit == l = 1
 (* (evaluated as a state function - `= TRUE` below - so that TLC caches r: a LET at action level is   *)
 (* re-evaluated at every use)                                                                        *)
+(* With the environment variable CONTINUE=1 a rejected event does not end the validation: it is      *)
+(* printed as UNMATCHED and the next event is looked at (used to collect ALL rejected events of a    *)
+(* trace whose first rejection was found by a normal run).                                           *)
+Continue == "CONTINUE" \in DOMAIN IOEnv /\ IOEnv.CONTINUE = "1"
+Unmatched(e, i, r) ==
+    PrintT(<<"UNMATCHED", ToJson([line |-> i, ev |-> e,
+                                   spec |-> [v |-> r.v, nan |-> r.nan, cls |-> r.cls, tie |-> r.tie]])>>)
 Accept(e, i) ==
     LET r == Spec(e) IN
-    /\ Agrees(FmtOf(e), r, e.r)
-    /\ PrintT(<<"CLASS", ToJson([i |-> i, c |-> r.cls, t |-> r.tie, n |-> r.nan, s |-> r.sub, o |-> r.ovf,
-                                  x |-> r.inexact])>>)
+    IF Agrees(FmtOf(e), r, e.r)
+    THEN PrintT(<<"CLASS", ToJson([i |-> i, c |-> r.cls, t |-> r.tie, n |-> r.nan, s |-> r.sub, o |-> r.ovf,
+                                    x |-> r.inexact])>>)
+    ELSE Continue /\ Unmatched(e, i, r)
 TraceNext ==
     /\ l <= Len(Rec)
     /\ Accept(Ev1, l) = TRUE
@@ -43,8 +51,5 @@ TraceSpec == TraceInit /\ [][TraceNext]_l
 TraceAccepted ==
   LET d == TLCGet("stats").diameter IN
   IF d - 1 = Len(Rec) THEN TRUE
-  ELSE LET r == Spec(Rec[d]) IN
-       /\ PrintT(<<"UNMATCHED", ToJson([line |-> d, ev |-> Rec[d],
-                                         spec |-> [v |-> r.v, nan |-> r.nan, cls |-> r.cls, tie |-> r.tie]])>>)
-       /\ FALSE
+  ELSE Unmatched(Rec[d], d, Spec(Rec[d])) /\ FALSE
 =============================================================================
